@@ -209,6 +209,8 @@ Flash ==
      IN
      /\ (E.calibrated => Report("C05.found", <<E.case, "flash", E.grid, r, l>>, r.ok))
      /\ Report("C07.flash_splits_inside_envelope", <<info, r, l>>, r.ok \/ r.err # "NoPhaseSplit")
+     \* on the calibrated domain a feed strictly inside the envelope leads the flash to a phase split (the same grid points as C05.found, seen from C07)
+     /\ (E.calibrated => Report("C07.unstable_feed_splits", <<E.case, "flash", E.grid, r, l>>, r.ok))
      /\ TwoPhase("C05", "flash", info, r, TolFlash)
      /\ FlashLaws("initial state: none", info, r, E.T, E.p, E.feed)
      /\ \A k \in 1..Len(E.guesses) :
